@@ -219,6 +219,10 @@ func init() {
 		st.unwind = ex.intArg(st, args[0], "unwind")
 		return nil, ctlRet
 	})
+	regRepo("vhAllocLimit", func(ex *Exec, st *State, fr *Frame, args []Value) (Value, ctlT) {
+		st.allocLimit = ex.intArg(st, args[0], "alloc limit")
+		return nil, ctlRet
+	})
 	regRepo("vhMapOrderAll", func(ex *Exec, st *State, fr *Frame, args []Value) (Value, ctlT) {
 		st.mapOrderAll = args[0].(*Term).IsTrue()
 		return nil, ctlRet
